@@ -114,7 +114,19 @@ func genC18(seed int64, tier string) *Scenario {
 	}
 	// create / delete events between the probes
 	nev := r.Intn(4)
+	edits := 0
 	for i := 0; i < nev; i++ {
+		if r.Intn(3) == 0 {
+			// an unsaved edit of the requirer between two analysis runs (a comment appended at the
+			// end: the positions of the module strings stay put); what was looked up while analysing
+			// the buffer must not leak into the handling of the next file event
+			edits++
+			end := Pos{2 * nreq, 0}
+			sc.Ops = append(sc.Ops, Op{Kind: "change", Path: mainPath, Edits: []Edit{{Start: end, End: end, Text: fmt.Sprintf("-- edit %d\n", edits)}}})
+			if r.Intn(2) == 0 {
+				sc.Ops = append(sc.Ops, Op{Kind: "check"})
+			}
+		}
 		var cands []string
 		for p := range exists {
 			if p != mainPath && strings.HasSuffix(p, ".lua") {
